@@ -249,7 +249,35 @@ func neverNil(v ssa.Value) bool {
 
 type fact struct {
 	pol   bool
-	local bool // mentions a non-parameter, non-constant value
+	local bool              // mentions a non-parameter, non-constant value
+	defs  []*ssa.BasicBlock // blocks of the instructions the condition is computed by
+}
+
+// defBlocks: the blocks of the instructions v is computed from (bounded operand closure).
+func defBlocks(v ssa.Value) []*ssa.BasicBlock {
+	var out []*ssa.BasicBlock
+	seen := map[ssa.Value]bool{}
+	var walk func(v ssa.Value, d int)
+	walk = func(v ssa.Value, d int) {
+		if v == nil || seen[v] || d > 12 {
+			return
+		}
+		seen[v] = true
+		in, ok := v.(ssa.Instruction)
+		if !ok {
+			return
+		}
+		if in.Block() != nil {
+			out = append(out, in.Block())
+		}
+		for _, op := range in.Operands(nil) {
+			if op != nil {
+				walk(*op, d+1)
+			}
+		}
+	}
+	walk(v, 0)
+	return out
 }
 
 // inlineFrame is one activation on the inline stack.
@@ -331,8 +359,19 @@ func (p *Prog) EnumPaths(fn *ssa.Function, opts PathOpts) ([]*Path, int, error) 
 			}
 			if fr.visits[b] > 1 {
 				// second visit of a loop header: registers defined in the loop get new values
+				// (a register defined outside this loop keeps its value: what was learnt about it stays)
+				loop := naturalLoop(b)
 				for k, f := range facts {
-					if f.local {
+					if !f.local {
+						continue
+					}
+					inLoop := len(f.defs) == 0
+					for _, db := range f.defs {
+						if db.Parent() != b.Parent() || loop[db] {
+							inLoop = true
+						}
+					}
+					if inLoop {
 						delete(facts, k)
 						delete(eqConst, k)
 					}
@@ -523,7 +562,7 @@ func (p *Prog) EnumPaths(fn *ssa.Function, opts PathOpts) ([]*Path, int, error) 
 					_, had := facts[at.key]
 					local := strings.Contains(at.key, "%")
 					if !had {
-						facts[at.key] = fact{pol: pol, local: local}
+						facts[at.key] = fact{pol: pol, local: local, defs: defBlocks(x.Cond)}
 					}
 					hadEq := false
 					if eqKey != "" && pol {
